@@ -150,6 +150,9 @@ func setsOK(sets [][]int, m int) (nodup bool) {
 }
 
 func propCheck(c Case) string {
+	if c.Kind == "bw" {
+		return propCheckBW(c)
+	}
 	if isMix(c) {
 		return propCheckMix(c)
 	}
@@ -363,6 +366,9 @@ func propCheckMix(c Case) string {
 // ---------------------------------------------------------------- shrinking
 
 func shrink(c Case) Case {
+	if c.Kind == "bw" {
+		return shrinkBW(c)
+	}
 	if isMix(c) {
 		return c
 	}
@@ -479,7 +485,21 @@ func hunt(o Opts) {
 				Cases []Case `json:"cases"`
 			}
 			json.Unmarshal(b, &rp)
+			// a witness on the public Baum-Welch path (no poisoned memory) is preferred
+			bwPublicOnly = true
 			for _, c := range rp.Cases {
+				if c.Kind == "bw" && propCheck(c) != "" {
+					r.Tried++
+					report(c)
+					done = true
+					break
+				}
+			}
+			bwPublicOnly = false
+			for _, c := range rp.Cases {
+				if done {
+					break
+				}
 				r.Tried++
 				if propCheck(c) != "" {
 					report(c)
@@ -514,6 +534,11 @@ func hunt(o Opts) {
 			var c Case
 			if k%5 == 4 {
 				c = genMix(rr, w)
+			} else if k%5 == 3 {
+				c = genBW(rr, w)
+				if k%10 == 8 {
+					c = reversedBW(c)
+				}
 			} else {
 				c = genHmm(rr, w)
 			}
